@@ -32,8 +32,8 @@ structure Token where
 inductive LexError
   /-- `Error::UnrecognizedToken(file, index)` — absolute character index -/
   | unrecognized (index : Nat)
-  /-- `Error::UnrecognizedEscapeSequence(file, Span{lo,hi})` — offsets *relative to the processed
-      string content* (`base = 0` in the code), not to the file -/
+  /-- `Error::UnrecognizedEscapeSequence(file, span)` — the backslash and the character after it,
+      as positions in the file -/
   | badEscape (lo hi : Nat)
   deriving DecidableEq, Repr, Inhabited
 
@@ -195,20 +195,23 @@ inductive MLine
 def MLine.content : MLine → List Char
   | .endsTriple s | .endsNewline s | .empty s => s
 
-/-- the `loop` of `handle_multiline_string`: collected lines, `first_line_has_triple_quote`, and the
-    characters remaining after the literal -/
-def collectLines : Nat → List MLine → Bool → List Char → List MLine × Bool × List Char
-  | 0, lines, flag, cs => (lines, flag, cs)
-  | f + 1, lines, flag, cs =>
+/-- the `loop` of `handle_multiline_string`: collected lines, the offset (relative to the text after
+    the opening `"""`) at which each collected line starts, `first_line_has_triple_quote`, and the
+    characters remaining after the literal; `off` = offset of `cs` -/
+def collectLines : Nat → Nat → List MLine → List Nat → Bool → List Char →
+    List MLine × List Nat × Bool × List Char
+  | 0, _, lines, starts, flag, cs => (lines, starts, flag, cs)
+  | f + 1, off, lines, starts, flag, cs =>
     match splitLine cs with
     | (l, .triple, r) =>
-      if l.all isWhitespace then (lines, flag, r) else (lines ++ [.endsTriple l], flag, r)
+      if l.all isWhitespace then (lines, starts, flag, r)
+      else (lines ++ [.endsTriple l], starts ++ [off], flag, r)
     | (l, .nl, r) =>
       if l.all isWhitespace then
-        if lines.isEmpty then collectLines f lines false r
-        else collectLines f (lines ++ [.empty l]) flag r
-      else collectLines f (lines ++ [.endsNewline l]) flag r
-    | (_, .eof, r) => (lines, flag, r)
+        if lines.isEmpty then collectLines f (off + l.length + 1) lines starts false r
+        else collectLines f (off + l.length + 1) (lines ++ [.empty l]) (starts ++ [off]) flag r
+      else collectLines f (off + l.length + 1) (lines ++ [.endsNewline l]) (starts ++ [off]) flag r
+    | (_, .eof, r) => (lines, starts, flag, r)
 
 /-- `calculate_indent`: leading spaces count 1, tabs 4 -/
 def indentOf : List Char → Nat
@@ -239,7 +242,7 @@ def dropCols : Nat → List Char → List Char
   | n + 1, '\t' :: r => dropCols (n + 1 - 4) r
   | _ + 1, cs => cs
 
-/-- the literal's raw text before escape processing.  Two repairs are modelled (DESIGN §7 D40, D42):
+/-- the literal's raw text before escape processing.  Follows the code after the fixes of D40 and D42:
     `indent = none` (no line took part in the minimum, `usize::MAX` in the code) strips nothing, and
     stripping removes `indent` *columns* of leading blanks, consistently with how `indentOf` counts
     them (the unrepaired code removed `indent` characters, eating text after a tab). -/
@@ -251,33 +254,54 @@ def assemble (lines : List MLine) (flag : Bool) (indent : Option Nat) : List Cha
     | l :: ls, first => dropCols (if first && flag then 0 else ind) l.content ++ '\n' :: go ls false
   go lines true
 
+/-- for every character of `assemble …` its offset in the text after the opening `"""`
+    (`positions` in the code): the kept part of each line, and the line break that joins two lines -/
+def assemblePos (lines : List MLine) (starts : List Nat) (flag : Bool) (indent : Option Nat) : List Nat :=
+  let ind := indent.getD 0
+  let rec go : List MLine → List Nat → Bool → List Nat
+    | [], _, _ => []
+    | l :: ls, starts, first =>
+      let b := starts.headD 0
+      let kept := dropCols (if first && flag then 0 else ind) l.content
+      let d := l.content.length - kept.length
+      let here := (List.range kept.length).map (fun j => b + d + j)
+      match ls with
+      | [] => here
+      | _ => here ++ (b + l.content.length) :: go ls starts.tail false
+  go lines starts true
+
 /-- `handle_multiline_string` after the opening `"""`: value, characters consumed after the opener,
-    escape diagnostics -/
-def lexTriple (afterOpen : List Char) : List Char × Nat × List Nat :=
-  let (lines, flag, rest) := collectLines (afterOpen.length + 1) [] true afterOpen
-  let raw := assemble lines flag (minIndent lines flag)
+    escape diagnostics as `(lo, hi)` offsets in the text after the opener (the backslash and the
+    character after it) -/
+def lexTriple (afterOpen : List Char) : List Char × Nat × List (Nat × Nat) :=
+  let (lines, starts, flag, rest) := collectLines (afterOpen.length + 1) 0 [] [] true afterOpen
+  let ind := minIndent lines flag
+  let raw := assemble lines flag ind
+  let pos := assemblePos lines starts flag ind
   let (s, e) := processEscapes raw
-  (s, afterOpen.length - rest.length, e)
+  (s, afterOpen.length - rest.length, e.map (fun p => (pos.getD p 0, pos.getD (p + 1) 0 + 1)))
 
 -- ---------------------------------------------------------------- one step of `tokenize_file`'s loop
 structure Step where
   tok : Option TokenKind
   /-- span length of the token = characters consumed (≥ 1 on non-empty input) -/
   len : Nat
-  badEscapes : List Nat := []
+  /-- unrecognized escapes as `(lo, hi)` character offsets from the start of the token -/
+  badEscapes : List (Nat × Nat) := []
   unrecognized : Bool := false
 
 def punct (k : TokenKind) (n : Nat) : Step := { tok := some k, len := n }
 def skip (n : Nat) : Step := { tok := none, len := n }
 
 /-- length of a `//` comment starting at `cs` (up to, not including, the newline) -/
-def lineCommentLen (cs : List Char) : Nat := (cs.takeWhile (· ≠ '\n')).length
+def lineCommentLen : List Char → Nat
+  | [] => 0
+  | c :: r => if c = '\n' then 0 else 1 + lineCommentLen r
 
 /-- offset just after the first `*/` in `cs`, or the length of `cs` when there is none -/
 def blockCommentEnd : List Char → Nat
   | [] => 0
-  | '*' :: '/' :: _ => 2
-  | _ :: r => 1 + blockCommentEnd r
+  | c :: r => if c = '*' && r.head? = some '/' then 2 else 1 + blockCommentEnd r
 
 def lexOne : List Char → Step
   | [] => skip 0
@@ -322,13 +346,13 @@ def lexOne : List Char → Step
       | '"' =>
         if startsTriple (c :: rest) then
           let (s, n, e) := lexTriple (rest.drop 2)
-          { tok := some (.strLit s), len := n + 3, badEscapes := e }
+          { tok := some (.strLit s), len := n + 3, badEscapes := e.map (fun (lo, hi) => (lo + 3, hi + 3)) }
         else
           let (s, n, e) := lexQuoted '"' rest
-          { tok := some (.strLit s), len := n, badEscapes := e }
+          { tok := some (.strLit s), len := n, badEscapes := e.map (fun p => (p + 1, p + 3)) }
       | '\'' =>
         let (s, n, e) := lexQuoted '\'' rest
-        { tok := some (.strLit s), len := n, badEscapes := e }
+        { tok := some (.strLit s), len := n, badEscapes := e.map (fun p => (p + 1, p + 3)) }
       | '/' =>
         if next = some '/' then skip (1 + lineCommentLen rest)
         else if next = some '*' then skip (min (2 + blockCommentEnd (rest.drop 1)) (rest.length + 1))
@@ -346,7 +370,7 @@ def tokenizeAux : Nat → Nat → List Char → List Token × List LexError
     let n := max s.len 1
     let (ts, es) := tokenizeAux f (pos + n) ((c :: rest).drop n)
     let es' := (if s.unrecognized then [LexError.unrecognized pos] else []) ++
-      s.badEscapes.map (fun p => LexError.badEscape p (p + 1)) ++ es
+      s.badEscapes.map (fun (lo, hi) => LexError.badEscape (pos + lo) (pos + hi)) ++ es
     match s.tok with
     | some k => (⟨k, pos, pos + n⟩ :: ts, es')
     | none => (ts, es')
@@ -356,11 +380,30 @@ def shebangLen : List Char → Nat
   | '#' :: '!' :: rest => 1 + (('!' :: rest).takeWhile (· ≠ '\n')).length
   | _ => 0
 
-/-- `tokenize_file`: tokens (with character spans, ending in `eof`) and lexer diagnostics -/
+/-- `tokenize_file`, positions as *character* indices (how the lexer scans): tokens ending in `eof`
+    and lexer diagnostics -/
 def tokenize (src : List Char) : List Token × List LexError :=
   let n := shebangLen src
   tokenizeAux (src.length + 1) n (src.drop n)
 
 def kinds (src : List Char) : List TokenKind := (tokenize src).1.map (·.kind)
+
+/-- number of bytes of the UTF-8 encoding of the characters -/
+def utf8Len : List Char → Nat
+  | [] => 0
+  | c :: cs => c.utf8Size + utf8Len cs
+
+/-- `Lexer::byte_pos`: byte offset of the character with index `i`; past the end of the source
+    (the `Eof` token) one byte per position -/
+def bytePos (src : List Char) (i : Nat) : Nat :=
+  if i ≤ src.length then utf8Len (src.take i) else utf8Len src + (i - src.length)
+
+/-- what `tokenize_file` hands out: every position is a byte offset into the source -/
+def tokenizeBytes (src : List Char) : List Token × List LexError :=
+  let (ts, es) := tokenize src
+  (ts.map (fun t => { t with lo := bytePos src t.lo, hi := bytePos src t.hi }),
+   es.map (fun e => match e with
+     | .unrecognized i => .unrecognized (bytePos src i)
+     | .badEscape lo hi => .badEscape (bytePos src lo) (bytePos src hi)))
 
 end Abra.Lex
